@@ -1,4 +1,5 @@
 import Netpol.Model.Cache
+import Netpol.Proofs.Structure
 /-! The cache layer (`Netpol.Model.Cache`, model of `eval_cache.go` + `check_eval.go` +
 the `PolicyEngine` update entry points): the LRU verdict cache is transparent. -/
 namespace Netpol
@@ -719,12 +720,9 @@ theorem insert_inv {s : EState} (hi : Inv P Q s) (o : Obj) (ho : ∀ p ∈ (HOp.
     | error e => exact hi
     | ok e =>
       refine Inv.of_empty rfl ?_
-      simp only [Engine.insertANP] at h
-      split at h
-      · cases h
-      · split at h
-        · cases h
-        · cases h; exact hi.pods
+      have he := Structure.insertANP_eq h
+      subst he
+      exact hi.pods
   | banp x =>
     simp only [insert]
     cases h : s.eng.insertBANP x with
@@ -1028,7 +1026,8 @@ def _root_.Netpol.Engine.adm (e : Engine) : List ANP × List String := (e.anps, 
 /-- the effect of one step on the admin-policy bookkeeping -/
 theorem step_adm (s : EState) (op : HOp) :
     (s.step op).1.eng.adm = s.eng.adm ∨
-    (∃ a, s.eng.anpNames.contains a.name = false ∧
+    (∃ a, s.eng.anpNames.contains a.name = false ∧ a.validPriority = true ∧
+      (∀ b ∈ s.eng.anps, b.prio ≠ a.prio) ∧
       (s.step op).1.eng.adm = (Engine.insertSorted a s.eng.anps, s.eng.anpNames ++ [a.name])) ∨
     (∃ name, (s.step op).1.eng.adm =
       (removeFirstNamed name s.eng.anps, s.eng.anpNames.filter (· != name))) ∨
@@ -1078,14 +1077,11 @@ theorem step_adm (s : EState) (op : HOp) :
       | error e => exact Or.inl rfl
       | ok e =>
         right; left
-        simp only [Engine.insertANP] at h
-        split at h
-        · cases h
-        · split at h
-          · cases h
-          · rename_i hc
-            cases h
-            exact ⟨x, by simpa using hc, rfl⟩
+        have hok := Structure.insertObject_ok (o := .anp x) h
+        have hp := Structure.insertANP_ok_prio h
+        have he := Structure.insertANP_eq h
+        subst he
+        exact ⟨x, by simpa using hok.2.1, hp.1, hp.2, rfl⟩
     | banp x =>
       left
       simp only [step, insert]
@@ -1107,7 +1103,7 @@ theorem step_anps (s : EState) (op : HOp) :
     (∃ a, (s.step op).1.eng.anps = Engine.insertSorted a s.eng.anps) ∨
     (∃ name, (s.step op).1.eng.anps = removeFirstNamed name s.eng.anps) ∨
     (s.step op).1.eng.anps = [] := by
-  rcases step_adm s op with h | ⟨a, _, h⟩ | ⟨n, h⟩ | h
+  rcases step_adm s op with h | ⟨a, _, _, _, h⟩ | ⟨n, h⟩ | h
   · exact Or.inl (congrArg Prod.fst h)
   · exact Or.inr (Or.inl ⟨a, congrArg Prod.fst h⟩)
   · exact Or.inr (Or.inr (Or.inl ⟨n, congrArg Prod.fst h⟩))
@@ -1214,7 +1210,7 @@ theorem removeFirstNamed_name_ne {name : String} {l : List ANP} (h : (l.map (·.
 
 theorem step_admInv {s : EState} (h : AdmInv s.eng) (op : HOp) : AdmInv (s.step op).1.eng := by
   unfold AdmInv
-  rcases step_adm s op with h' | ⟨a, ha, h'⟩ | ⟨n, h'⟩ | h'
+  rcases step_adm s op with h' | ⟨a, ha, _, _, h'⟩ | ⟨n, h'⟩ | h'
   · rw [show (s.step op).1.eng.anps = s.eng.anps from congrArg Prod.fst h',
       show (s.step op).1.eng.anpNames = s.eng.anpNames from congrArg Prod.snd h']
     exact h
@@ -1248,6 +1244,86 @@ theorem run_admInv {s : EState} (h : AdmInv s.eng) (ops : List HOp) : AdmInv (s.
   induction ops generalizing s with
   | nil => exact h
   | cons op rest ih => exact ih (step_admInv h op)
+
+/-- every step keeps the priorities of the held admin policies pairwise distinct and within
+0..1000: an insertion that would not is refused, a deletion removes, a clear empties -/
+theorem step_prioInv {s : EState} (h : Structure.PrioInv s.eng) (op : HOp) :
+    Structure.PrioInv (s.step op).1.eng := by
+  unfold Structure.PrioInv
+  rcases step_adm s op with h' | ⟨a, _, hv, hp, h'⟩ | ⟨n, h'⟩ | h'
+  · rw [show (s.step op).1.eng.anps = s.eng.anps from congrArg Prod.fst h']
+    exact h
+  · rw [show (s.step op).1.eng.anps = _ from congrArg Prod.fst h']
+    exact Structure.prioInv_insertSorted h hv hp
+  · rw [show (s.step op).1.eng.anps = _ from congrArg Prod.fst h']
+    have hsub := CacheLayer.removeFirstNamed_sublist n s.eng.anps
+    exact ⟨List.Nodup.sublist (hsub.map _) h.1, fun a ha => h.2 a (hsub.subset ha)⟩
+  · rw [show (s.step op).1.eng.anps = _ from congrArg Prod.fst h']
+    exact ⟨List.nodup_nil, fun a ha => by cases ha⟩
+
+theorem run_prioInv {s : EState} (h : Structure.PrioInv s.eng) (ops : List HOp) :
+    Structure.PrioInv (s.run ops).eng := by
+  induction ops generalizing s with
+  | nil => exact h
+  | cons op rest ih => exact ih (step_prioInv h op)
+
+/-- sorted with pairwise distinct priorities is strictly sorted -/
+theorem _root_.Netpol.CacheLayer.strict_of_byPrio_nodup {l : List ANP} (hs : CacheLayer.ByPrio l)
+    (hn : (l.map (·.prio)).Nodup) : l.Pairwise (fun a b => a.prio < b.prio) := by
+  induction l with
+  | nil => exact List.Pairwise.nil
+  | cons a rest ih =>
+    obtain ⟨h1, h2⟩ := List.pairwise_cons.mp hs
+    obtain ⟨n1, n2⟩ := List.nodup_cons.mp (show (a.prio :: rest.map (·.prio)).Nodup from hn)
+    refine List.pairwise_cons.mpr ⟨fun b hb => ?_, ih h2 n2⟩
+    have hle := h1 b hb
+    have hne : a.prio ≠ b.prio := fun h => n1 (List.mem_map.mpr ⟨b, hb, h.symm⟩)
+    omega
+
+/-! ### a rejected admin policy leaves the state as it is -/
+
+/-- `InsertObject` of an admin policy whose priority is held already: rejected with `anpPriority`
+(when the two earlier checks pass), the state — engine, cache, owner bookkeeping — is unchanged -/
+theorem insert_same_prio (s : EState) {a b : ANP} (hexp : s.eng.exposure = false)
+    (hn : a.name ∉ s.eng.anpNames) (hb : b ∈ s.eng.anps) (hp : b.prio = a.prio) :
+    s.insert (.anp a) = (.err .anpPriority, s) := by
+  simp only [insert, Structure.insertANP_same_prio hexp hn hb hp]
+
+/-- the same for a priority outside 0..1000 -/
+theorem insert_invalid_prio (s : EState) {a : ANP} (hexp : s.eng.exposure = false)
+    (hn : a.name ∉ s.eng.anpNames) (hv : a.validPriority = false) :
+    s.insert (.anp a) = (.err .anpPriority, s) := by
+  simp only [insert, Structure.insertANP_invalid hexp hn hv]
+
+/-- whatever the reason, a rejected insertion leaves the state as it is -/
+theorem insert_err_unchanged (s : EState) (o : Obj) {err : Err} (h : (s.insert o).1 = .err err) :
+    (s.insert o).2 = s := by
+  cases o with
+  | ns n => cases h
+  | wl w => cases h
+  | pod p =>
+    simp only [insert] at h ⊢
+    split
+    · rfl
+    · rename_i hh; rw [if_neg hh] at h; cases h
+  | np x =>
+    simp only [insert] at h ⊢
+    cases hx : s.eng.insertNetpol x with
+    | error e => rfl
+    | ok e => rw [hx] at h; cases h
+  | anp x =>
+    simp only [insert] at h ⊢
+    cases hx : s.eng.insertANP x with
+    | error e => rfl
+    | ok e => rw [hx] at h; cases h
+  | banp x =>
+    simp only [insert] at h ⊢
+    cases hx : s.eng.insertBANP x with
+    | error e => rfl
+    | ok e => rw [hx] at h; cases h
+  | svc _ => cases h
+  | ing _ => cases h
+  | route _ => cases h
 
 /-! ### deleting an absent object is a no-op -/
 
@@ -1397,61 +1473,283 @@ end EState
 
 def CacheLayer.insertANPs (e : Engine) (l : List ANP) : Except Err Engine := l.foldlM Engine.insertANP e
 
-theorem CacheLayer.insertANPs_ok (e : Engine) (l : List ANP) (hexp : e.exposure = false)
-    (hn : (e.anpNames ++ l.map (·.name)).Nodup) :
-    ∃ e', CacheLayer.insertANPs e l = .ok e' ∧ e'.anps.Perm (l ++ e.anps) ∧ (CacheLayer.ByPrio e.anps → CacheLayer.ByPrio e'.anps) := by
+theorem CacheLayer.insertANPs_cons (e : Engine) (a : ANP) (rest : List ANP) :
+    CacheLayer.insertANPs e (a :: rest) =
+      match e.insertANP a with
+      | .error err => .error err
+      | .ok e1 => CacheLayer.insertANPs e1 rest := by
+  simp only [CacheLayer.insertANPs, List.foldlM_cons]
+  cases e.insertANP a <;> rfl
+
+/-- the admission condition of a sequence of admin-policy insertions: the exposure flag is off,
+the names are new and pairwise distinct, the priorities are within 0..1000, held by no policy of
+the engine and pairwise distinct. Every clause speaks about the multiset of `l`. -/
+structure CacheLayer.Insertable (e : Engine) (l : List ANP) : Prop where
+  expo : l ≠ [] → e.exposure = false
+  fresh : ∀ a ∈ l, a.name ∉ e.anpNames
+  names : (l.map (·.name)).Nodup
+  valid : ∀ a ∈ l, a.validPriority = true
+  free : ∀ a ∈ l, ∀ b ∈ e.anps, b.prio ≠ a.prio
+  prios : (l.map (·.prio)).Nodup
+
+theorem CacheLayer.Insertable.perm {e : Engine} {l l' : List ANP} (hp : l.Perm l')
+    (h : CacheLayer.Insertable e l) : CacheLayer.Insertable e l' where
+  expo := fun hne => h.expo (fun h0 => hne (by rw [h0] at hp; exact hp.nil_eq.symm))
+  fresh := fun a ha => h.fresh a (hp.mem_iff.mpr ha)
+  names := ((hp.map _).nodup_iff).mp h.names
+  valid := fun a ha => h.valid a (hp.mem_iff.mpr ha)
+  free := fun a ha => h.free a (hp.mem_iff.mpr ha)
+  prios := ((hp.map _).nodup_iff).mp h.prios
+
+/-- a sequence of insertions is accepted exactly when it is admissible -/
+theorem CacheLayer.insertANPs_ok_iff (e : Engine) (l : List ANP) :
+    (∃ e', CacheLayer.insertANPs e l = .ok e') ↔ CacheLayer.Insertable e l := by
   induction l generalizing e with
-  | nil => exact ⟨e, rfl, List.Perm.refl _, id⟩
+  | nil =>
+    exact ⟨fun _ => ⟨fun h => absurd rfl h, fun _ h => (by cases h), List.nodup_nil,
+      fun _ h => (by cases h), fun _ h => (by cases h), List.nodup_nil⟩, fun _ => ⟨e, rfl⟩⟩
   | cons a rest ih =>
-    have hnot : a.name ∉ e.anpNames := by
-      intro hm
-      have := (List.nodup_append.mp hn).2.2 a.name hm a.name (List.mem_cons_self ..)
-      exact this rfl
-    have hc : e.anpNames.contains a.name = false := by simpa using hnot
-    have hins : ∃ e1, e.insertANP a = .ok e1 ∧ e1.exposure = false ∧
-        e1.anpNames = e.anpNames ++ [a.name] ∧ e1.anps = Engine.insertSorted a e.anps := by
-      refine ⟨{ e with anpNames := e.anpNames ++ [a.name], anps := Engine.insertSorted a e.anps },
-        ?_, hexp, rfl, rfl⟩
-      simp only [Engine.insertANP, hexp, hc, Bool.false_eq_true, if_false]
-    obtain ⟨e1, i1, i2, i3, i4⟩ := hins
-    obtain ⟨e', h1, h2, h3⟩ := ih e1 i2 (by rw [i3]; simpa [List.append_assoc] using hn)
-    refine ⟨e', ?_, ?_, fun hs => h3 (i4 ▸ CacheLayer.insertSorted_byPrio hs)⟩
-    · simp only [CacheLayer.insertANPs, List.foldlM_cons, i1]
-      exact h1
-    · refine h2.trans ?_
-      rw [i4]
-      refine ((CacheLayer.insertSorted_perm a e.anps).append_left rest).trans ?_
-      exact List.perm_middle
+    rw [CacheLayer.insertANPs_cons]
+    constructor
+    · rintro ⟨e', h⟩
+      cases h1 : e.insertANP a with
+      | error err => rw [h1] at h; cases h
+      | ok e1 =>
+        rw [h1] at h
+        obtain ⟨hexp, hn, hv, hp⟩ := Structure.insertANP_ok_iff.mp ⟨e1, h1⟩
+        have he := Structure.insertANP_eq h1
+        have hr := (ih e1).mp ⟨e', h⟩
+        subst he
+        refine ⟨fun _ => hexp, ?_, ?_, ?_, ?_, ?_⟩
+        · intro x hx
+          rcases List.mem_cons.mp hx with rfl | hx
+          · exact hn
+          · exact fun hm => hr.fresh x hx (List.mem_append_left _ hm)
+        · rw [List.map_cons, List.nodup_cons]
+          refine ⟨?_, hr.names⟩
+          intro hm
+          obtain ⟨x, hx, hxn⟩ := List.mem_map.mp hm
+          exact hr.fresh x hx (List.mem_append_right _ (by simp [hxn]))
+        · intro x hx
+          rcases List.mem_cons.mp hx with rfl | hx
+          · exact hv
+          · exact hr.valid x hx
+        · intro x hx b hb
+          rcases List.mem_cons.mp hx with rfl | hx
+          · exact hp b hb
+          · exact hr.free x hx b (CacheLayer.mem_insertSorted.mpr (Or.inr hb))
+        · rw [List.map_cons, List.nodup_cons]
+          refine ⟨?_, hr.prios⟩
+          intro hm
+          obtain ⟨x, hx, hxn⟩ := List.mem_map.mp hm
+          exact hr.free x hx a (CacheLayer.mem_insertSorted.mpr (Or.inl rfl)) hxn.symm
+    · intro hi
+      have hmem : a ∈ a :: rest := List.mem_cons_self ..
+      obtain ⟨e1, h1⟩ := Structure.insertANP_ok_iff.mpr
+        ⟨hi.expo (by simp), hi.fresh a hmem, hi.valid a hmem, hi.free a hmem⟩
+      have he := Structure.insertANP_eq h1
+      rw [h1]
+      apply (ih e1).mpr
+      subst he
+      have hn := List.nodup_cons.mp (show (a.name :: rest.map (·.name)).Nodup from hi.names)
+      have hq := List.nodup_cons.mp (show (a.prio :: rest.map (·.prio)).Nodup from hi.prios)
+      refine ⟨fun _ => hi.expo (by simp), ?_, hn.2,
+        fun x hx => hi.valid x (List.mem_cons_of_mem _ hx), ?_, hq.2⟩
+      · intro x hx hm
+        rcases List.mem_append.mp hm with hm | hm
+        · exact hi.fresh x (List.mem_cons_of_mem _ hx) hm
+        · have : x.name = a.name := by simpa using hm
+          exact hn.1 (List.mem_map.mpr ⟨x, hx, this⟩)
+      · intro x hx b hb
+        rcases CacheLayer.mem_insertSorted.mp hb with rfl | hb
+        · intro h; exact hq.1 (List.mem_map.mpr ⟨x, hx, h.symm⟩)
+        · exact hi.free x (List.mem_cons_of_mem _ hx) b hb
 
-theorem CacheLayer.eq_of_nodup_map {α β} {f : α → β} {l : List α} (h : (l.map f).Nodup) {a b : α}
-    (ha : a ∈ l) (hb : b ∈ l) (hab : f a = f b) : a = b := by
+/-- the engine an accepted sequence of insertions returns -/
+theorem CacheLayer.insertANPs_result {e e' : Engine} {l : List ANP}
+    (h : CacheLayer.insertANPs e l = .ok e') :
+    e' = { e with anpNames := e.anpNames ++ l.map (·.name),
+                  anps := l.foldl (fun acc a => Engine.insertSorted a acc) e.anps } := by
+  induction l generalizing e with
+  | nil =>
+    simp only [CacheLayer.insertANPs, List.foldlM_nil, pure, Except.pure, Except.ok.injEq] at h
+    subst h
+    simp
+  | cons a rest ih =>
+    rw [CacheLayer.insertANPs_cons] at h
+    cases h1 : e.insertANP a with
+    | error err => rw [h1] at h; cases h
+    | ok e1 =>
+      rw [h1] at h
+      have he := Structure.insertANP_eq h1
+      rw [ih h, he]
+      simp [List.append_assoc]
+
+/-- the errors of a rejected sequence of insertions -/
+theorem CacheLayer.insertANPs_error {e : Engine} {l : List ANP} {err : Err}
+    (h : CacheLayer.insertANPs e l = .error err) :
+    err = .exposureWithANP ∧ e.exposure = true ∨ err = .dupANP ∨ err = .anpPriority := by
+  induction l generalizing e with
+  | nil => cases h
+  | cons a rest ih =>
+    rw [CacheLayer.insertANPs_cons] at h
+    cases h1 : e.insertANP a with
+    | error err' =>
+      rw [h1] at h
+      cases h
+      unfold Engine.insertANP at h1
+      split at h1
+      · rename_i hx; cases h1; exact Or.inl ⟨rfl, hx⟩
+      split at h1
+      · cases h1; exact Or.inr (Or.inl rfl)
+      split at h1
+      · cases h1; exact Or.inr (Or.inr rfl)
+      split at h1
+      · cases h1; exact Or.inr (Or.inr rfl)
+      · cases h1
+    | ok e1 =>
+      rw [h1] at h
+      have he := Structure.insertANP_eq h1
+      rcases ih h with ⟨h2, h3⟩ | h2 | h2
+      · exact Or.inl ⟨h2, by rw [he] at h3; exact h3⟩
+      · exact Or.inr (Or.inl h2)
+      · exact Or.inr (Or.inr h2)
+
+/-- two insertions with different priorities commute, whatever the list -/
+theorem CacheLayer.insertSorted_comm (a b : ANP) (h : a.prio ≠ b.prio) (l : List ANP) :
+    Engine.insertSorted a (Engine.insertSorted b l) = Engine.insertSorted b (Engine.insertSorted a l) := by
   induction l with
-  | nil => cases ha
-  | cons x xs ih =>
-    have hn := List.nodup_cons.mp (show (f x :: xs.map f).Nodup from h)
-    rcases List.mem_cons.mp ha with ha' | ha'
-    · rcases List.mem_cons.mp hb with hb' | hb'
-      · rw [ha', hb']
-      · exact absurd (List.mem_map.mpr ⟨b, hb', by rw [← hab, ha']⟩) hn.1
-    · rcases List.mem_cons.mp hb with hb' | hb'
-      · exact absurd (List.mem_map.mpr ⟨a, ha', by rw [hab, hb']⟩) hn.1
-      · exact ih hn.2 ha' hb'
+  | nil =>
+    simp only [Engine.insertSorted]
+    by_cases h1 : b.prio > a.prio <;> by_cases h2 : a.prio > b.prio <;>
+      simp [h1, h2] <;> omega
+  | cons c cs ih =>
+    simp only [Engine.insertSorted]
+    by_cases h1 : c.prio > b.prio <;> by_cases h2 : c.prio > a.prio <;>
+      by_cases h3 : b.prio > a.prio <;> by_cases h4 : a.prio > b.prio <;>
+      simp [Engine.insertSorted, h1, h2, h3, h4, ih] <;> omega
 
-/-- admin policies are applied by priority regardless of the insertion order: two permutations of
-a list of policies with distinct names and distinct priorities yield the same sorted slice -/
-theorem CacheLayer.insertANPs_perm (e : Engine) (l₁ l₂ : List ANP) (hp : l₁.Perm l₂) (hexp : e.exposure = false)
-    (hn : (e.anpNames ++ l₁.map (·.name)).Nodup) (hs : CacheLayer.ByPrio e.anps)
-    (hprio : ((l₁ ++ e.anps).map (·.prio)).Nodup) :
-    ∃ e₁ e₂, CacheLayer.insertANPs e l₁ = .ok e₁ ∧ CacheLayer.insertANPs e l₂ = .ok e₂ ∧ e₁.anps = e₂.anps := by
-  have hn2 : (e.anpNames ++ l₂.map (·.name)).Nodup :=
-    (((hp.map (·.name)).append_left e.anpNames).nodup_iff).mp hn
-  obtain ⟨e₁, a1, b1, c1⟩ := CacheLayer.insertANPs_ok e l₁ hexp hn
-  obtain ⟨e₂, a2, b2, c2⟩ := CacheLayer.insertANPs_ok e l₂ hexp hn2
-  refine ⟨e₁, e₂, a1, a2, ?_⟩
-  have hperm : e₁.anps.Perm e₂.anps := b1.trans ((hp.append_right e.anps).trans b2.symm)
-  refine List.Perm.eq_of_pairwise (le := fun (a b : ANP) => a.prio ≤ b.prio) ?_ (c1 hs) (c2 hs) hperm
-  intro a b ha hb h1 h2
-  exact CacheLayer.eq_of_nodup_map hprio (b1.subset ha) (b1.subset (hperm.symm.subset hb)) (by omega)
+/-- the slice after a sequence of insertions with pairwise distinct priorities does not depend on
+their order, whatever the slice before -/
+theorem CacheLayer.foldl_insertSorted_perm {l₁ l₂ : List ANP} (hp : l₁.Perm l₂)
+    (hn : (l₁.map (·.prio)).Nodup) (acc : List ANP) :
+    l₁.foldl (fun acc a => Engine.insertSorted a acc) acc =
+      l₂.foldl (fun acc a => Engine.insertSorted a acc) acc := by
+  induction hp generalizing acc with
+  | nil => rfl
+  | cons x _ ih =>
+    simp only [List.foldl_cons]
+    exact ih (List.nodup_cons.mp hn).2 _
+  | swap x y l =>
+    simp only [List.foldl_cons]
+    have hne : x.prio ≠ y.prio := by
+      intro h
+      have := (List.nodup_cons.mp hn).1
+      exact this (by simp [h])
+    rw [CacheLayer.insertSorted_comm x y hne acc]
+  | trans h1 _ ih1 ih2 =>
+    exact (ih1 hn acc).trans (ih2 ((h1.map _).nodup_iff.mp hn) acc)
+
+/-- **admin policies are applied by priority regardless of the insertion order**, and admission
+does not depend on the order either: two permutations of a list of policies, inserted one by one
+into the same engine, are both rejected or both accepted, and when accepted the engines hold the
+same sorted slice (they are equal up to the order of the name map). No hypothesis on the engine
+nor on the policies. -/
+theorem CacheLayer.insertANPs_perm (e : Engine) {l₁ l₂ : List ANP} (hp : l₁.Perm l₂) :
+    (∃ err₁ err₂, CacheLayer.insertANPs e l₁ = .error err₁ ∧ CacheLayer.insertANPs e l₂ = .error err₂) ∨
+    (∃ e₁ e₂, CacheLayer.insertANPs e l₁ = .ok e₁ ∧ CacheLayer.insertANPs e l₂ = .ok e₂ ∧
+      e₁.anps = e₂.anps ∧ e₁.anpNames.Perm e₂.anpNames ∧ e₂ = { e₁ with anpNames := e₂.anpNames }) := by
+  cases h1 : CacheLayer.insertANPs e l₁ with
+  | error err₁ =>
+    cases h2 : CacheLayer.insertANPs e l₂ with
+    | error err₂ => exact Or.inl ⟨err₁, err₂, rfl, rfl⟩
+    | ok e₂ =>
+      obtain ⟨e₁, h⟩ := (CacheLayer.insertANPs_ok_iff e l₁).mpr
+        (((CacheLayer.insertANPs_ok_iff e l₂).mp ⟨e₂, h2⟩).perm hp.symm)
+      rw [h1] at h; cases h
+  | ok e₁ =>
+    have hi := (CacheLayer.insertANPs_ok_iff e l₁).mp ⟨e₁, h1⟩
+    obtain ⟨e₂, h2⟩ := (CacheLayer.insertANPs_ok_iff e l₂).mpr (hi.perm hp)
+    right
+    refine ⟨e₁, e₂, rfl, h2, ?_⟩
+    have r1 := CacheLayer.insertANPs_result h1
+    have r2 := CacheLayer.insertANPs_result h2
+    have hf := CacheLayer.foldl_insertSorted_perm hp hi.prios e.anps
+    subst r1; subst r2
+    exact ⟨hf, (hp.map _).append_left _, by simp only [hf]⟩
+
+/-! ### the `InsertObject` path (`EState.insertAll`) on admin policies -/
+
+theorem EState.insertAll_anps_error {s : EState} {l : List ANP} {err : Err}
+    (h : CacheLayer.insertANPs s.eng l = .error err) : (s.insertAll (l.map .anp)).1 = .err err := by
+  induction l generalizing s with
+  | nil => cases h
+  | cons a rest ih =>
+    rw [CacheLayer.insertANPs_cons] at h
+    simp only [List.map_cons, EState.insertAll, EState.insert]
+    cases h1 : s.eng.insertANP a with
+    | error err' => rw [h1] at h; cases h; rfl
+    | ok e1 =>
+      rw [h1] at h
+      exact ih (s := ({ s with eng := e1 } : EState).cacheClear) h
+
+theorem EState.insertAll_anps_ok {s : EState} {l : List ANP} {e : Engine}
+    (h : CacheLayer.insertANPs s.eng l = .ok e) :
+    s.insertAll (l.map .anp) =
+      (.ok, if l.isEmpty then s else ({ s with eng := e } : EState).cacheClear) := by
+  induction l generalizing s with
+  | nil => rfl
+  | cons a rest ih =>
+    rw [CacheLayer.insertANPs_cons] at h
+    simp only [List.map_cons, EState.insertAll, EState.insert]
+    cases h1 : s.eng.insertANP a with
+    | error err' => rw [h1] at h; cases h
+    | ok e1 =>
+      rw [h1] at h
+      have := ih (s := ({ s with eng := e1 } : EState).cacheClear) h
+      simp only [this, List.isEmpty_cons, Bool.false_eq_true, if_false]
+      cases rest with
+      | nil =>
+        simp only [CacheLayer.insertANPs, List.foldlM_nil, pure, Except.pure,
+          Except.ok.injEq] at h
+        have h' : e1 = e := h
+        subst h'
+        rfl
+      | cons b rest' => rfl
+
+/-- **the `InsertObject` path does not depend on the order of the admin policies**: two
+permutations of a list of admin policies, inserted one by one (`EState.insertAll`, which stops at
+the first rejected object) into the same state, are both rejected, or both accepted with final
+states that are equal up to the order of the name map — same sorted slice, same other objects,
+same (cleared) cache -/
+theorem EState.insertAll_anps_perm (s : EState) {l₁ l₂ : List ANP} (hp : l₁.Perm l₂) :
+    (∃ err₁ err₂, (s.insertAll (l₁.map .anp)).1 = .err err₁ ∧
+      (s.insertAll (l₂.map .anp)).1 = .err err₂) ∨
+    (∃ s₁ s₂, s.insertAll (l₁.map .anp) = (.ok, s₁) ∧ s.insertAll (l₂.map .anp) = (.ok, s₂) ∧
+      s₁.eng.anps = s₂.eng.anps ∧ s₁.eng.anpNames.Perm s₂.eng.anpNames ∧
+      s₂ = { s₁ with eng := { s₁.eng with anpNames := s₂.eng.anpNames } }) := by
+  rcases CacheLayer.insertANPs_perm s.eng hp with ⟨err₁, err₂, h1, h2⟩ | ⟨e₁, e₂, h1, h2, h3, h4, h5⟩
+  · exact Or.inl ⟨err₁, err₂, EState.insertAll_anps_error h1, EState.insertAll_anps_error h2⟩
+  · right
+    refine ⟨_, _, EState.insertAll_anps_ok h1, EState.insertAll_anps_ok h2, ?_⟩
+    have hemp : l₂.isEmpty = l₁.isEmpty := by
+      cases l₁ with
+      | nil => rw [hp.nil_eq.symm]
+      | cons a r =>
+        cases l₂ with
+        | nil => exact absurd hp.eq_nil (by simp)
+        | cons b r' => rfl
+    rw [hemp]
+    cases hl : l₁.isEmpty with
+    | true =>
+      simp only [if_true]
+      exact ⟨trivial, List.Perm.refl _, trivial⟩
+    | false =>
+      simp only [Bool.false_eq_true, if_false]
+      refine ⟨h3, h4, ?_⟩
+      show (_ : EState) = _
+      simp only [EState.cacheClear]
+      rw [h5]
 
 /-- a history extended by a query whose (protocol, port) strings were queried before is as
 consistent as the history -/
